@@ -1040,6 +1040,8 @@ class Polyhedron(Shape3D):
             ["vertices", "faces", "centroid", "volume", "inertia_tensor"]
         )
         hoomd_dict = _map_dict_keys(data, key_mapping=_hoomd_dict_mapping)
+        # Copy: the live vertex array is moved back to the original centroid below.
+        hoomd_dict["vertices"] = hoomd_dict["vertices"].copy()
         hoomd_dict["sweep_radius"] = 0.0
 
         self.centroid = old_centroid
